@@ -106,4 +106,38 @@ mod harnesses {
         assert!(y.to_bits() == v.to_bits());
         assert!(d == 1.0);
     });
+
+    // ---- soft-max (n <= 3): non-negative, finite, never NaN, at most 1, summing to one up to rounding, for ALL finite inputs.
+    // exp is the F2 contract stub (nondeterministic within its contract): the clauses below hold for every function exp with
+    // exp(0) = 1, 0 <= exp(x) <= 1 for x <= 0.
+    macro_rules! softmax_h {
+        ($name:ident, $n:expr) => {
+            #[kani::proof]
+            #[kani::unwind(6)]
+            #[kani::stub(f32::exp, exp_model)]
+            fn $name() {
+                let mut v: Vec<f32> = Vec::with_capacity($n);
+                let mut i = 0;
+                while i < $n { v.push(any_finite()); i += 1; }
+                let f = Function::create(&Activation::Softmax);
+                let y = f.forward(&Tensor::single(v));
+                assert!(y.shape == Shape::Single($n));
+                let y = match &y.data { Data::Single(d) => d.clone(), _ => panic!("rank changed") };
+                assert!(y.len() == $n);
+                let mut sum = 0.0f32;
+                let mut i = 0;
+                while i < $n {
+                    assert!(!y[i].is_nan() && y[i] >= 0.0 && y[i] <= 1.0);
+                    sum += y[i];
+                    i += 1;
+                }
+                assert!(sum > 0.999 && sum < 1.001);
+                kani::cover!(y[0] < y[1]);
+            }
+        };
+    }
+    // @harness c07_softmax_n2 props=C07 tier=quick kind=bounded flags="--no-overflow-checks" bound="vector length 2, all finite f32 inputs" what="soft-max: outputs in [0,1], never NaN, sum within 1e-3 of 1, also for arbitrarily large finite inputs" timeout=900
+    softmax_h!(c07_softmax_n2, 2usize);
+    // @harness c07_softmax_n3 props=C07 tier=thorough kind=bounded flags="--no-overflow-checks" bound="vector length 3, all finite f32 inputs" what="soft-max, 3 elements" timeout=2400 mem=20
+    softmax_h!(c07_softmax_n3, 3usize);
 }
